@@ -1162,3 +1162,58 @@ def diskcache_kill_points(tier='quick'):
     finally:
         shutil.rmtree(root, ignore_errors=True)
     return cases, fails
+
+
+# ------------------------------------------------------------------ key-less stages: items() refused with the library's signal
+def keyless_snapshots(tier='quick'):
+    """Every stage class over a key-less (list-backed) input of 0..4 examples: items() is either delivered (never, here) or
+    refused with ItemsNotDefined -- the one signal from_dataset / new(ds) understand -- and from_dataset(ds) / new(ds)
+    (finite stages) produce the examples of one iteration.  (F27: slice / cache / prefetch; F30: catch / reshuffle.)"""
+    os.environ.setdefault('OMP_NUM_THREADS', '1')
+    os.environ.setdefault('MKL_NUM_THREADS', '1')
+    import numpy as np
+    import lazy_dataset
+    from lazy_dataset.core import ProfilingDataset, DynamicTimeSeriesBucket
+    cases, fails = 0, []
+    stages = {
+        'map': lambda l: l.map(abs), 'parmap': lambda l: l.map(abs, num_workers=1, buffer_size=2), 'catch': lambda l: l.catch(),
+        'map.catch': lambda l: l.map(abs).catch(), 'reshuffle': lambda l: l.shuffle(True, rng=np.random.RandomState(0)),
+        'shuffle': lambda l: l.shuffle(rng=np.random.RandomState(0)), 'local-shuffle': lambda l: l.shuffle(True, buffer_size=2, rng=np.random.RandomState(0)),
+        'apply': lambda l: l.apply(lambda d: d, lazy=True), 'slice': lambda l: l[1:], 'index-list': lambda l: l[[0] * min(len(l), 1)],
+        'sort': lambda l: l.sort(lambda x: -x), 'filter': lambda l: l.filter(bool), 'filter-eager': lambda l: l.filter(bool, lazy=False),
+        'concatenate': lambda l: l.concatenate(l), 'tile': lambda l: l.tile(2), 'intersperse': lambda l: l.intersperse(l) if len(l) else l,
+        'zip': lambda l: l.zip(l), 'batch': lambda l: l.batch(2), 'batch.unbatch': lambda l: l.batch(2).unbatch(),
+        'prefetch(1)': lambda l: l.prefetch(1, 2), 'prefetch(2)': lambda l: l.prefetch(2, 2), 'cache': lambda l: l.cache(),
+        'profiling': lambda l: ProfilingDataset(l), 'split': lambda l: l.split(2)[1] if len(l) >= 2 else l, 'copy': lambda l: l.copy(),
+        'reshuffle.catch': lambda l: l.shuffle(True, rng=np.random.RandomState(0)).map(abs), 'catch.slice-free': lambda l: l.catch().map(abs),
+        'bucket': lambda l: l.batch_dynamic_time_series_bucket(batch_size=2, len_key=lambda x: x, max_padding_rate=0.5),
+    }
+    sizes = (0, 1, 3) if tier == 'quick' else (0, 1, 2, 3, 4)
+    for n in sizes:
+        for name, mk in stages.items():
+            src = lazy_dataset.new([i + 1 for i in range(n)])
+            try:
+                ds = mk(src)
+            except Exception as e:      # noqa
+                fails.append({'scenario': '%s over list[%d]' % (name, n), 'mismatches': [{'clause': 'construction', 'observed': type(e).__name__, 'expected': 'builds'}]})
+                continue
+            cases += 1
+            try:
+                got = list(ds.items())
+                out = 'delivered %r' % (got,)
+            except BaseException as e:      # noqa
+                out = type(e).__name__
+            if out != 'ItemsNotDefined':
+                fails.append({'scenario': '%s over list[%d]: items()' % (name, n), 'mismatches': [{'clause': 'items-refused-with-the-ItemsNotDefined-signal', 'observed': out, 'expected': 'ItemsNotDefined'}]})
+                continue
+            want = sorted(repr(x) for x in mk(lazy_dataset.new([i + 1 for i in range(n)])))
+            for how in ('from_dataset', 'new'):
+                cases += 1
+                try:
+                    snap = lazy_dataset.from_dataset(mk(src)) if how == 'from_dataset' else lazy_dataset.new(mk(src))
+                    got = sorted(repr(x) for x in snap)
+                except BaseException as e:      # noqa
+                    got = '%s: %s' % (type(e).__name__, str(e)[:80])
+                if got != want:
+                    fails.append({'scenario': '%s(%s over list[%d])' % (how, name, n), 'mismatches': [{'clause': 'key-less-snapshot', 'observed': repr(got)[:200], 'expected': repr(want)[:200]}]})
+    return cases, fails
